@@ -44,6 +44,7 @@ class Base(HasTraits):
     l_init = List(Int, [1, 2])
     d_plain = Dict(Int, Int)
     s_plain = Set(Int)
+    w_ = Int                  # a wildcard: every name w... is an Int attribute (resolved on first use)
     a_list = Any([1, 2])
     a_lsub = Any(ListSub([1, 2]))
     a_dict = Any({1: 1})
